@@ -1,6 +1,7 @@
 package main
 
 import (
+	"strings"
 	"bytes"
 	"context"
 	"encoding/json"
@@ -81,6 +82,8 @@ func grpcKinds(run string) []Call {
 	}
 }
 
+func subName(run string) string { return strings.Replace(topicName(run, "t1"), "/topics/", "/subscriptions/", 1) + "-sub" }
+
 func genGrpc(r *rand.Rand, id string) GrpcCfg {
 	cfg := GrpcCfg{ID: id, Seed: r.Int63()}
 	t1 := topicName(id, "t1")
@@ -94,6 +97,9 @@ func genGrpc(r *rand.Rand, id string) GrpcCfg {
 	bySvc := cand{Desc{"bySvc", "Publish", Params{svcPublisher: "Publish"}, n(40)}, "grpc.OutOfRange", codes.OutOfRange}
 	byFull := cand{Desc{"byFull", "GetTopic", Params{"google.pubsub.v1.GetTopicRequest.topic": t1}, n(20)}, "grpc.Unauthenticated", codes.Unauthenticated}
 	never := cand{Desc{"never", "Publish", Params{"topic": t1, "ordering_key": "x"}, n(5)}, "grpc.PermissionDenied", codes.PermissionDenied}
+	// a parameter no Publish request carries (it belongs to the StreamingPull side traffic of the run):
+	// must never match, whatever the interceptor did for an earlier call
+	neverSub := cand{Desc{"neverSub", "Publish", Params{"subscription": subName(id)}, n(5)}, "grpc.Unavailable", codes.Unavailable}
 	var cs []cand
 	switch r.Intn(4) {
 	case 0:
@@ -101,9 +107,9 @@ func genGrpc(r *rand.Rand, id string) GrpcCfg {
 	case 1:
 		cs = []cand{byTopic, bySvc, byFull}
 	case 2:
-		cs = []cand{bySvc, byTopic, never}
+		cs = []cand{neverSub, bySvc, byTopic, never}
 	default:
-		cs = []cand{never, byTopic, bySvc, byFull}
+		cs = []cand{never, neverSub, byTopic, bySvc, byFull}
 	}
 	total := int64(0)
 	for _, c := range cs {
@@ -213,6 +219,38 @@ func execGrpc(ctx context.Context, client *ent.Client, idx int, cfg GrpcCfg, tf 
 			return fail(fmt.Sprintf("CreateTopic: %v", err))
 		}
 	}
+
+	// side traffic: StreamingPull sessions on a subscription of t1 (their requests carry a
+	// `subscription` field, which no recorded call has)
+	subc := pubsubpb.NewSubscriberClient(conn)
+	{
+		cctx, cc := context.WithTimeout(ctx, 20*time.Second)
+		_, err := subc.CreateSubscription(cctx, &pubsubpb.Subscription{Name: subName(cfg.ID), Topic: t1})
+		cc()
+		if err != nil && status.Code(err) != codes.AlreadyExists {
+			return fail(fmt.Sprintf("CreateSubscription: %v", err))
+		}
+	}
+	sideStop := make(chan struct{})
+	sideDone := make(chan struct{})
+	go func() {
+		defer close(sideDone)
+		for {
+			select {
+			case <-sideStop:
+				return
+			default:
+			}
+			sctx, sc := context.WithTimeout(ctx, 150*time.Millisecond)
+			if st, err := subc.StreamingPull(sctx); err == nil {
+				_ = st.Send(&pubsubpb.StreamingPullRequest{Subscription: subName(cfg.ID), StreamAckDeadlineSeconds: 10})
+				_ = st.Send(&pubsubpb.StreamingPullRequest{})
+				_, _ = st.Recv()
+			}
+			sc()
+		}
+	}()
+	defer func() { close(sideStop); <-sideDone }()
 
 	tb := &traceBuf{}
 	inject := func(i int) error {
